@@ -251,7 +251,9 @@ fn validate_nxdomain_response(cx: &Context<'_>) -> Proof {
     match (closest_encloser, next_closer, closest_encloser_wildcard) {
         // Got all three components - we proved that there's no `query_name`
         // in the zone
-        (Some(_), Some(_), Some(_)) => cx.proof(Proof::Secure, "direct proof"),
+        (Some((_, closest_encloser)), Some(_), Some(_)) if from_proper_zone(closest_encloser) => {
+            cx.proof(Proof::Secure, "direct proof")
+        }
         // `query_name`'s parent is the `soa_name` itself, so there's no need
         // to send `soa_name`'s NSEC3 record. Still we have to show that
         // both `query_name` doesn't exist and there's no wildcard to service it
@@ -427,8 +429,9 @@ fn validate_nodata_response(
                 closest_encloser_wildcard,
             ) = cx.closest_encloser_proof_with_wildcard(true);
             match (closest_encloser, next_closer, closest_encloser_wildcard) {
-                (Some(_), Some(_), Some((_, wildcard)))
-                    if !wildcard.nsec3_data.type_set().contains(query_type)
+                (Some((_, closest_encloser)), Some(_), Some((_, wildcard)))
+                    if from_proper_zone(closest_encloser)
+                        && !wildcard.nsec3_data.type_set().contains(query_type)
                         && !wildcard.nsec3_data.type_set().contains(RecordType::CNAME) =>
                 {
                     (
@@ -446,6 +449,14 @@ fn validate_nodata_response(
     };
 
     cx.proof(proof, reason)
+}
+
+/// RFC 5155 8.3: the NSEC3 record matching the closest encloser must be from the proper zone: "The DNAME
+/// type bit must not be set and the NS type bit may only be set if the SOA type bit is set."
+fn from_proper_zone(closest_encloser: &Nsec3RecordPair<'_>) -> bool {
+    let types = closest_encloser.nsec3_data.type_set();
+    !types.contains(RecordType::Unknown(39))
+        && (!types.contains(RecordType::NS) || types.contains(RecordType::SOA))
 }
 
 fn split_first_label(name: &Name) -> Option<(&[u8], Name)> {
